@@ -47,6 +47,13 @@ func (Diverged) Error() string { return "vsimrt: step budget exhausted" }
 
 type killedT struct{}
 
+// EscapedPanic is a panic that unwound a whole task.
+type EscapedPanic struct {
+	Task int
+	Root bool
+	Val  any
+}
+
 // IsKilled recognises the scheduler's kill signal (used to unwind tasks after
 // a deadlock or an abort); harness code that recovers panics must re-raise it.
 func IsKilled(r any) bool { _, ok := r.(killedT); return ok }
@@ -82,8 +89,10 @@ type Task struct {
 
 	wake    chan int
 	s       *Sched
-	blocked bool
-	done    bool
+	blocked  bool
+	done     bool
+	killed   bool
+	detached bool
 }
 
 type event struct {
@@ -103,9 +112,14 @@ type Sched struct {
 	Deadlock bool
 	MaxSegs  int // safety cap on the number of segments (0: none)
 	Aborted  bool
-	// Panics that escaped a task function (harness bugs, not library panics).
-	Escaped []any
+	// Panics that escaped a task function. From a root task it is a harness
+	// bug (library panics are caught around every operation); from a child
+	// task (a goroutine started by the code under test) it is what would
+	// crash the real process.
+	Escaped []EscapedPanic
 	mu      sync.Mutex
+	nRoot   int
+	crashed bool
 
 	Switches       int64
 	SwitchesShared int64
@@ -241,6 +255,14 @@ func (t *Task) slow(site uint32, why uint8) {
 //
 //go:norace
 func (t *Task) yield(site uint32, why uint8, child *Task) {
+	if t.killed {
+		// the task is being unwound: deferred calls of the code under test
+		// may pass yield sites, but the task must not park again
+		if why == WhyBlocked {
+			panic(killedT{})
+		}
+		return
+	}
 	s := t.s
 	t.blocked = why == WhyBlocked
 	raceDisable()
@@ -248,6 +270,8 @@ func (t *Task) yield(site uint32, why uint8, child *Task) {
 	code := <-t.wake
 	raceEnable()
 	if code != 1 {
+		t.killed = true
+		t.segEnd, t.opEnd, t.next = noLimit, noLimit, noLimit
 		panic(killedT{})
 	}
 }
@@ -325,7 +349,13 @@ func (s *Sched) spawn(fn func()) *Task {
 }
 
 func (s *Sched) body(t *Task, fn func()) {
-	defer s.wg.Done()
+	defer func() {
+		// a task that outlived its first scheduler (see orphans) is accounted
+		// for in the scheduler that adopted it
+		if cs := t.sched(); cs != nil {
+			cs.wg.Done()
+		}
+	}()
 	raceDisable()
 	code := <-t.wake
 	raceEnable()
@@ -334,17 +364,61 @@ func (s *Sched) body(t *Task, fn func()) {
 			defer func() {
 				if r := recover(); r != nil {
 					if _, ok := r.(killedT); !ok {
-						s.mu.Lock()
-						s.Escaped = append(s.Escaped, r)
-						s.mu.Unlock()
+						cs := t.sched()
+						cs.mu.Lock()
+						cs.Escaped = append(cs.Escaped, EscapedPanic{Task: t.ID, Root: t.ID < cs.nRoot && !t.isDetached(), Val: r})
+						cs.mu.Unlock()
+						cs.setCrashed()
 					}
 				}
 			}()
 			fn()
 		}()
 	}
-	s.finish(t)
+	t.sched().finish(t)
 }
+
+//go:norace
+func (t *Task) sched() *Sched { return t.s }
+
+//go:norace
+func (t *Task) isDetached() bool { return t.detached }
+
+// Tasks that are still parked (blocked on a simulated primitive) when every
+// root task of a run has finished are background goroutines of the code
+// under test (a worker pool, say). They are not a deadlock: they stay parked
+// and are adopted by the next scheduler of the process, like goroutines that
+// live as long as the process.
+var orphans []*Task
+
+//go:norace
+func (s *Sched) detach(t *Task) {
+	t.detached = true
+	t.s = nil
+	orphans = append(orphans, t)
+}
+
+//go:norace
+func (s *Sched) adopt() {
+	for _, t := range orphans {
+		t.s = s
+		t.ID = len(s.tasks)
+		s.tasks = append(s.tasks, t)
+		s.wg.Add(1) // balanced by detach or by the task's end (see body)
+	}
+	orphans = orphans[:0]
+}
+
+// Orphans reports how many background tasks are parked between runs.
+//
+//go:norace
+func Orphans() int { return len(orphans) }
+
+//go:norace
+func (s *Sched) setCrashed() { s.crashed = true }
+
+//go:norace
+func (s *Sched) isCrashed() bool { return s.crashed }
 
 //go:norace
 func (s *Sched) finish(t *Task) {
@@ -372,15 +446,18 @@ func (s *Sched) handoff(t *Task, code int) event {
 func (s *Sched) Run(fns []func()) {
 	running.Add(1)
 	defer running.Add(-1)
+	s.nRoot = len(fns)
 	for _, fn := range fns {
 		s.spawn(fn)
 	}
+	s.adopt()
 	var live []int
 	var blk []bool
 	for {
 		live = live[:0]
 		blk = blk[:0]
 		allBlocked := true
+		rootsLive := false
 		for _, t := range s.tasks {
 			if !t.isDone() {
 				live = append(live, t.ID)
@@ -389,9 +466,17 @@ func (s *Sched) Run(fns []func()) {
 				if !b {
 					allBlocked = false
 				}
+				if t.ID < s.nRoot && !t.isDetached() {
+					rootsLive = true
+				}
 			}
 		}
 		if len(live) == 0 {
+			break
+		}
+		if s.isCrashed() {
+			// an unrecovered panic in a goroutine of the code under test ends the process
+			s.killAll()
 			break
 		}
 		if s.MaxSegs > 0 && len(s.Trace) >= s.MaxSegs {
@@ -408,12 +493,23 @@ func (s *Sched) Run(fns []func()) {
 				t.arm(0, 0)
 				ev := s.handoff(t, 1)
 				s.record(t, before, ev)
-				if ev.why != WhyBlocked {
+				// a polled task that passed any yield site did something
+				// (took or delivered a message, got a lock) even if it is
+				// blocked again now
+				if ev.why != WhyBlocked || ev.task.stepsNow() != before {
 					progressMade = true
 					break
 				}
 			}
 			if !progressMade {
+				if !rootsLive {
+					// only background tasks are left, all parked: keep them for the next run
+					for _, id := range live {
+						s.detach(s.tasks[id])
+						s.wg.Done()
+					}
+					break
+				}
 				s.Deadlock = true
 				s.killAll()
 				break
@@ -433,8 +529,13 @@ func (s *Sched) Run(fns []func()) {
 	s.wg.Wait()
 }
 
+var debugTrace = os.Getenv("VSIM_TRACE") != ""
+
 func (s *Sched) record(t *Task, before int64, ev event) {
 	n := ev.task.stepsNow() - before
+	if debugTrace {
+		fmt.Fprintf(os.Stderr, "seg task=%d steps=%d site=%d why=%d live=%d\n", t.ID, n, ev.site, ev.why, len(s.tasks))
+	}
 	s.Trace = append(s.Trace, Segment{Task: t.ID, Steps: n, Site: ev.site, Why: ev.why})
 	if ev.why == WhySeg || ev.why == WhyShared {
 		s.Switches++
@@ -454,7 +555,7 @@ func (s *Sched) record(t *Task, before int64, ev event) {
 
 func (s *Sched) killAll() {
 	for _, t := range s.tasks {
-		if !t.isDone() {
+		for i := 0; !t.isDone() && i < 1000; i++ {
 			s.handoff(t, 2)
 		}
 	}
